@@ -33,6 +33,8 @@ TEMPLATES = [
     'def function_one(first_param):\n    if first_param == {L}:\n        return {L}\n    elif first_param is {L}:\n        return {L}\n    return 1 == 1.0, 1 is True, 0 == False, {L}\n',
     'def generator_function():\n    del_value = {L}\n    del del_value\n    yield {L}\n    yield {L}\n    yield {L}\n',
     'value_one = (1, 1.0, True, 1, 1.0, True, 1, 1.0, True)\nvalue_two = (0, 0.0, False, 0, 0.0, False, 0, 0.0, False, -0.0, -0.0)\n',
+    'class SomeClass:\n    __slots__: tuple = ({L}, {L})\n    attribute_one = {L}\n    attribute_two = {L}\n',
+    'class SomeClass:\n    __slots__ = ()\n    __slots__ += ({L}, {L})\n    attribute_one = {L}\n    attribute_two = {L}\n',
     # names spelled like the aliases the hoister hands out already exist where the literal is used
     'class SettingsClass:\n    _A = 8080\n    host_value = {L}\n    fallback_value = {L}\n    other_value = ({L}, {L}, _A)\n',
     'def function_one():\n    _A = 1\n    A = 2\n    return {L}, {L}, {L}, {L}, _A, A\n',
